@@ -196,13 +196,25 @@ func (fr *Frame) doCall(cc *ssa.CallCommon, site ssa.Instruction, args []Term, c
 	ordKey := "call:" + firstOr(names, "?")
 	ord := top.callOrd[ordKey]
 	top.callOrd[ordKey] = ord + 1
-	if fc := fr.siteContract(); fc != nil {
+	fc := fr.siteContract()
+	orphanOnly := false
+	if fc == nil && fr.parent != nil && fr.fn.Parent() == nil && top.fc != nil {
+		// an inlined helper without a contract of its own: a call clause of the function under
+		// contract that matches no call in that function's own body (the lines were moved into the
+		// helper) follows the code here; clauses that do match there stay confined to it
+		fc = top.fc
+		orphanOnly = true
+	}
+	if fc != nil {
 		// a pattern `name#k` addresses the k-th call of that name (in order of first execution)
 		var onames []string
 		for _, n := range names {
 			onames = append(onames, n, fmt.Sprintf("%s#%d", n, ord))
 		}
 		for _, cs := range fc.Calls {
+			if orphanOnly && top.patternSeen(barePattern(cs.Pattern)) {
+				continue
+			}
 			if matchPattern(cs.Pattern, onames) {
 				sites = append(sites, cs)
 				if top.patHit == nil {
@@ -1932,17 +1944,7 @@ func runTop(c *Ctx, fn *ssa.Function, fc *FuncContract) (err error) {
 			}
 			if !used && !c.dry {
 				// pattern may match through an alternative name; checked in matchedPatterns
-				bare := cs.Pattern
-				if strings.Contains(bare, "#") {
-					var alts []string
-					for _, a := range strings.Split(bare, "|") {
-						if i := strings.Index(a, "#"); i >= 0 {
-							a = a[:i]
-						}
-						alts = append(alts, a)
-					}
-					bare = strings.Join(alts, "|")
-				}
+				bare := barePattern(cs.Pattern)
 				if !fr.patternSeen(bare) {
 					fr.bindingFailure(&Clause{Label: "call-" + cs.Pattern, Where: fc.Where, Src: "call pattern matches no call"}, fmt.Errorf("no call matches %q", cs.Pattern))
 				}
@@ -2138,4 +2140,19 @@ func (fr *Frame) returnOrdinal(ret *ssa.Return) int {
 		}
 	}
 	return -1
+}
+
+// barePattern strips the `#k` ordinals of a call pattern.
+func barePattern(p string) string {
+	if !strings.Contains(p, "#") {
+		return p
+	}
+	var alts []string
+	for _, a := range strings.Split(p, "|") {
+		if i := strings.Index(a, "#"); i >= 0 {
+			a = a[:i]
+		}
+		alts = append(alts, a)
+	}
+	return strings.Join(alts, "|")
 }
